@@ -173,11 +173,12 @@ Section Complete.
     Qed.
 
     Theorem or_complete_first y2 g1 g2 alpha raw1 raw2 raw3 c1 c2 r1 r2 :
-      powm g1 q p = 1 -> powm g2 q p = 1 -> powm y2 q p = 1 -> 0 <= alpha ->
+      powm g1 q p = 1 -> powm g2 q p = 1 -> elem y2 -> 0 <= alpha ->
       or_prove_first H G h (powm g1 alpha p) y2 g1 g2 alpha raw1 raw2 raw3 = Some (c1, c2, r1, r2) ->
       or_verify H G h (powm g1 alpha p) y2 g1 g2 true c1 c2 r1 r2 = Accept.
     Proof.
-      intros Hg1 Hg2 Hy2 Ha. unfold or_prove_first, srandomm. fold p q g.
+      intros Hg1 Hg2 Ey2 Ha. assert (Hy2 : powm y2 q p = 1) by (apply elem_spec in Ey2; tauto).
+      unfold or_prove_first, srandomm. fold p q g.
       pose proof (Z.mod_pos_bound raw1 q Hq) as B1. pose proof (Z.mod_pos_bound raw2 q Hq) as B2.
       pose proof (Z.mod_pos_bound raw3 q Hq) as B3.
       set (v1 := raw1 mod q) in *. set (v2 := raw2 mod q) in *. set (w := raw3 mod q) in *.
@@ -193,6 +194,7 @@ Section Complete.
       unfold or_verify. fold p q g. cbn [negb]. rewrite !Z.abs_eq by lia.
       repeat match goal with |- context [q <=? ?a] => destruct (q <=? a) eqn:?; [lia|] end. cbn [orb].
       repeat match goal with |- context [q <=? ?a] => destruct (q <=? a) eqn:?; [lia|] end. cbn [orb].
+      pose proof (elem_pow g1 alpha Hg1 Ha) as Ey1. fold y1 in Ey1. pose proof Ey2 as Ey2'. unfold elem in Ey1, Ey2'. rewrite Ey1, Ey2'. cbn [negb orb].
       unfold mpz_powm.
       repeat match goal with |- context [?a <? 0] => destruct (a <? 0) eqn:?; [lia|] end.
       change (powm y1 ((c - w) mod q) p) with (powm (powm g1 alpha p) ((c - w) mod q) p). rewrite (or_known g1 alpha ((c - w) mod q) v1 Hg1 Ha) by lia.
@@ -202,11 +204,12 @@ Section Complete.
     Qed.
 
     Theorem or_complete_second y1 g1 g2 alpha raw1 raw2 raw3 c1 c2 r1 r2 :
-      powm g1 q p = 1 -> powm g2 q p = 1 -> powm y1 q p = 1 -> 0 <= alpha ->
+      powm g1 q p = 1 -> powm g2 q p = 1 -> elem y1 -> 0 <= alpha ->
       or_prove_second H G h y1 (powm g2 alpha p) g1 g2 alpha raw1 raw2 raw3 = Some (c1, c2, r1, r2) ->
       or_verify H G h y1 (powm g2 alpha p) g1 g2 true c1 c2 r1 r2 = Accept.
     Proof.
-      intros Hg1 Hg2 Hy1 Ha. unfold or_prove_second, srandomm. fold p q g.
+      intros Hg1 Hg2 Ey1 Ha. assert (Hy1 : powm y1 q p = 1) by (apply elem_spec in Ey1; tauto).
+      unfold or_prove_second, srandomm. fold p q g.
       pose proof (Z.mod_pos_bound raw1 q Hq) as B1. pose proof (Z.mod_pos_bound raw2 q Hq) as B2.
       pose proof (Z.mod_pos_bound raw3 q Hq) as B3.
       set (v1 := raw1 mod q) in *. set (v2 := raw2 mod q) in *. set (w := raw3 mod q) in *.
@@ -222,6 +225,7 @@ Section Complete.
       unfold or_verify. fold p q g. cbn [negb]. rewrite !Z.abs_eq by lia.
       repeat match goal with |- context [q <=? ?a] => destruct (q <=? a) eqn:?; [lia|] end. cbn [orb].
       repeat match goal with |- context [q <=? ?a] => destruct (q <=? a) eqn:?; [lia|] end. cbn [orb].
+      pose proof (elem_pow g2 alpha Hg2 Ha) as Ey2. fold y2 in Ey2. pose proof Ey1 as Ey1'. unfold elem in Ey2, Ey1'. rewrite Ey1', Ey2. cbn [negb orb].
       unfold mpz_powm.
       repeat match goal with |- context [?a <? 0] => destruct (a <? 0) eqn:?; [lia|] end.
       change (powm y2 ((c - w) mod q) p) with (powm (powm g2 alpha p) ((c - w) mod q) p). rewrite (or_known g2 alpha ((c - w) mod q) v2 Hg2 Ha) by lia.
@@ -257,7 +261,7 @@ Section Complete.
       destruct (elem_inv m Hm) as [mi [Emi [Bmi Mmi]]].
       unfold mask_prove, mask_verify. fold p q g. rewrite Emi.
       pose proof (elem_pow g r Hg ltac:(lia)) as E1. pose proof (elem_pow h r Hhq ltac:(lia)) as E2.
-      pose proof (elem_mul _ _ E2 Hm) as E3. unfold elem in E1, E3. rewrite E1, E3. cbn [negb].
+      pose proof (elem_mul _ _ E2 Hm) as E3. pose proof Hm as Hm'. unfold elem in E1, E3, Hm'. rewrite Hm', E1, E3. cbn [negb].
       rewrite (cancel_left m mi (powm h r p) Mmi) by (apply powm_range; lia).
       apply cp_complete_table; [exact Hhq|exact Eth|lia].
     Qed.
@@ -281,7 +285,7 @@ Section Complete.
       unfold remask_prove, remask_verify. fold p q g. rewrite Ei1, Ei2.
       pose proof (elem_pow g r Hg ltac:(lia)) as E1. pose proof (elem_pow h r Hhq ltac:(lia)) as E2.
       pose proof (elem_mul _ _ E1 H1) as E3. pose proof (elem_mul _ _ E2 H2) as E4.
-      unfold elem in E3, E4. rewrite E3, E4. cbn [negb].
+      pose proof H1 as H1'. pose proof H2 as H2'. unfold elem in E3, E4, H1', H2'. rewrite H1', H2', E3, E4. cbn [negb].
       rewrite (cancel_left c1 i1 (powm g r p) Mi1) by (apply powm_range; lia).
       rewrite (cancel_left c2 i2 (powm h r p) Mi2) by (apply powm_range; lia).
       apply cp_complete_table; [exact Hhq|exact Eth|lia].
